@@ -367,6 +367,10 @@ class C18(Check):
                 for pr in (pre if th else pre[:2]):
                     jobs.append(line_job(S.SCHED(tt, cyc, pr, K=2), ['schedule'], e2=2 if not th else 5, max_depth=800))
         K = 3 if th else 2
+        hi = S.SCHED([(1, 'a'), (0.5, 'b'), (1, 'a')], True, [('o1', 'default')], K=2)
+        hi['positions'] = ['pre', 'hi', 'mid']
+        hi['name'] += '+hi'
+        jobs += _line_jobs([hi], ['schedule'], tier)
         sel = [S.SCHED([(1, 'a'), (0.5, 'b')], True, [('o1', 'default')], K=K),
                S.SCHED([(1, 'a'), (0, 'b'), (2, 'a')], False, [('o1', 'override'), ('o2', 'default')], K=K),
                S.SCHED([(0.5, 'a'), (0, 'b'), (0.5, 'a')], True, [], K=K),
@@ -439,8 +443,9 @@ class C20(Check):
         jobs = _line_jobs(specs, self.MONS, tier, e2q=6, e2t=20)
         from .comp import comp_job, split_first
         D = 5 if th else 4
-        jobs.append(comp_job('life', 'LIFE[empty,D3]', {'depth': 3, 'presys': 0}, e2=10))
-        jobs += split_first('life', f'LIFE[1 system,D{D}]', {'depth': D, 'presys': 1}, e2=5, max_states=2000000, max_seconds=3000)
+        jobs.append(comp_job('life', 'LIFE[empty,D3]', {'depth': 3, 'presys': 0, 'id_offset': 300}, e2=10))
+        jobs += split_first('life', f'LIFE[1 system,D{D}]', {'depth': D, 'presys': 1, 'id_offset': 300}, e2=5,
+                            max_states=2000000, max_seconds=3000)
         return jobs
 
 
@@ -480,6 +485,13 @@ class C04(Check):
                     jobs.append(line_job(sp, ['recurrence'], e2=1, max_depth=2500))
                 else:
                     self.excluded += 1
+        # "every horizon": the same lines with the horizon reached through two consecutive simulate() calls, split at
+        # every quiescent point (every split point is replayed through the real calls)
+        n = 0
+        for sp, ok in S.ser_family(n_max=2, src_cycles=(1,), sink_cycles=(0, 1), budgets=(None,)):
+            n += 1
+            if ok and n % 7 == 0:
+                jobs.append(line_job(S.with_splits(sp), ['recurrence'], e2=2, max_depth=1500))
         for ex in (S.EX_SINGLE_PROCESSOR(), S.EX_BUFFER()):
             for pol in ('first', 'last'):
                 jobs.append(conformance_job(ex, ['recurrence', 'examplecount'], pol))
@@ -536,6 +548,8 @@ class C14(Check):
             jobs.append(repro_job(f'SEED[{model}]', 'seed', model, seeds=seeds, offsets=[0, 1, 7], horizon=8))
             jobs.append(repro_job(f'SMT[{model}]', 'smt', model, ns=[1, 2, 3, 4], max_processes=[0, 1, 2, 3, None], horizon=6))
         jobs.append(repro_job('SMT12[merge]', 'smt', 'merge', ns=[12], max_processes=[0, 2], horizon=4))
+        # default-named assets with id offsets that straddle a power of ten (..._9 / ..._10, ..._99 / ..._100)
+        jobs.append(repro_job('SEED[merge_default]', 'seed', 'merge_default', seeds=seeds[:8], offsets=[0, 7, 8, 97, 98, 998], horizon=8))
         jobs.append(repro_job('HASH[merge]', 'hash', 'merge', seeds=[3], hashseeds=[1, 2, 77], horizon=8))
         jobs.append(repro_job('HASH[maint]', 'hash', 'maint', seeds=[3], hashseeds=[1, 2], horizon=8))
         jobs.append(repro_job('POOL[merge]', 'pool', 'merge', ns=[3], max_processes=[1, 2, None] if th else [2], horizon=6))
